@@ -84,6 +84,7 @@ func RunH(spec *HSpec, env *Env) *Result {
 	coreCache := map[string]string{}
 	coreSeen := map[string]int{}
 	base := LoadInstances(spec.ID)
+	flakyCores := FlakyCores(spec.ID)
 	record := os.Getenv("VERIF_RECORD_INSTANCES") != ""
 	scs := spec.Scenarios(env.Tier)
 	if f := os.Getenv("VERIF_FILTER"); f != "" {
@@ -161,6 +162,7 @@ func RunH(spec *HSpec, env *Env) *Result {
 						}
 						ck = "new|" + ck
 					}
+					_ = flakyCores
 					// Minimise here, in the worker, once per (oracle kind, signature, set of
 					// event kinds): extensions of a violating history are still explored
 					// (a known finding on a prefix must not hide a new violation further
@@ -179,15 +181,27 @@ func RunH(spec *HSpec, env *Env) *Result {
 						f = *m
 					}
 					if record {
+						if lf := os.Getenv("VERIF_INSTANCE_LOG"); lf != "" {
+							// development aid: which history is which instance
+							if fh, err := os.OpenFile(lf, os.O_APPEND|os.O_CREATE|os.O_WRONLY, 0o644); err == nil {
+								fmt.Fprintf(fh, "%s\t%s\t%s\t%s\t%s\n", inst, sc.Name, hist.HistString(h), v.Sig, firstLineOf(v.Detail))
+								fh.Close()
+							}
+						}
 						if res.Instances == nil {
 							res.Instances = map[string]string{}
 						}
 						res.Instances[inst] = f.Core
+					} else if base != nil && flakyCores[f.Core] {
+						// a core whose set of violating histories is not the same in every run of
+						// the unchanged tree (marked "~" in the baseline file): matched by core
+						f.KnownInstance, f.Instance = true, inst
+						res.Count("instances_of_flaky_cores", 1)
 					} else if base != nil && !strings.HasSuffix(f.Core, "|array-set-on-previously-moved-element") {
 						f.NewInstance, f.Instance, f.BaseCore = true, inst, f.Core
 						f.Core += "|history-not-in-baseline"
 						// does the ORIGINAL history violate every time?
-						for k := 0; k < 2 && !f.Flaky; k++ {
+						for k := 0; k < 4 && !f.Flaky; k++ {
 							again := false
 							vs, _ := spec.Eval(r, sc, h, nil)
 							for _, w := range vs {
@@ -249,6 +263,15 @@ func InstanceKey(sc *hist.Scenario, h []hist.Event, v *hist.Violation) string {
 }
 
 var instCache = map[string]map[string]string{}
+var flakyCache = map[string]map[string]bool{}
+
+// FlakyCores returns the cores marked "~<n>" in the baseline file: on the
+// unchanged tree the set of histories that show them differs from run to run
+// (the code under test iterates Go maps), so they are matched by core.
+func FlakyCores(id string) map[string]bool {
+	LoadInstances(id)
+	return flakyCache[id]
+}
 
 // LoadInstances reads known_instances/<ID>.txt (nil when the check keeps no
 // instance baseline). Format: "#<n> <core>" lines define cores, "<instance> <n>"
@@ -274,6 +297,11 @@ func LoadInstances(id string) map[string]string {
 		}
 		if l[0] == '#' {
 			cores[l[1:i]] = l[i+1:]
+		} else if l[0] == '~' {
+			if flakyCache[id] == nil {
+				flakyCache[id] = map[string]bool{}
+			}
+			flakyCache[id][l[i+1:]] = true
 		} else {
 			m[l[:i]] = cores[l[i+1:]]
 		}
